@@ -141,6 +141,9 @@ def _worker(args):
     pid, tier, seed, idx, shard, known_sigs, mode = args[:7]
     sys.setrecursionlimit(10000)
     ctx = Ctx(pid, tier, seed, idx, known_sigs)
+    if os.environ.get("BV_DEBUG"):
+        import faulthandler
+        faulthandler.dump_traceback_later(int(os.environ["BV_DEBUG"]), exit=False, file=open("/tmp/bv_debug_%s_%s.txt" % (pid, idx), "w"))
     d = _enter_scratch(args[7] if len(args) > 7 else None)
     err = None
     try:
